@@ -279,8 +279,9 @@ def r92(ctx, prog, rule="R9.2"):
         appended = seg["appended"]
         n += 1
         key = "ctx=%s,not_ignore=%s,ignored=%s" % (seg["ctx"], seg["not_ignore"], ignored)
-        if ignored is None:
-            # no filter decision taken in this iteration: then nothing may be validated or returned
+        if ignored is None and (not opt_out or (not validated and not appended)):
+            # no filter decision taken in this iteration: then nothing may be validated or returned (when the caller opted
+            # out, the verdict of the filter is not consulted: `keep_all || !ignored`)
             ok_ = not validated and not appended
             ctx.ob(rule, "iteration:%s:no-decision" % key, ok_,
                    "iteration without a filter decision: validated=%s appended=%s" % (validated, appended),
